@@ -83,6 +83,10 @@ def _apply(method, v):
         return ("eq", g, g * 4)
     if callable(method) or method in CALLABLES:
         func = method if callable(method) else CALLABLES[method]
+        if has_nan:
+            # what a user function is handed for an incomplete group (NaN padding or only the existing
+            # observations) is not stated anywhere: decided on complete groups and under discard_missing only
+            return ("any",)
         try:
             with np.errstate(all="ignore"):
                 val = float(func(np.array(v, dtype=float)))
@@ -234,7 +238,7 @@ def _same(a, b):
     return a == b
 
 
-def maps_equal(a, b, nv, rtol=0.0, only=None):
+def maps_equal(a, b, nv, rtol=0.0, only=None, scale=0.0):
     """cell-by-cell equality of two dict series (NaN == absent); `only`: restrict to these (ordinal, variant) cells.
     Returns the first few differing cells."""
     diffs = []
@@ -246,7 +250,7 @@ def maps_equal(a, b, nv, rtol=0.0, only=None):
             if rtol == 0.0:
                 ok = _same(x, y)
             else:
-                ok = close(x, y, 0.0, rtol)
+                ok = close(x, y, scale, rtol)
             if not ok:
                 diffs.append((o, j, x, y))
                 if len(diffs) >= 4:
